@@ -4,10 +4,10 @@
 
     step <begin|check|tx|end> h=<height> M=<maturity> N=<#addresses> | tot v:a … | vd v:d:a … | eff d:a … |
       bnd d:a … | mat h:d:a:d:a … | val v:staking:power:sa … | prev v:staking:power:sa … |
-      bal d:a … | frozen v … | req v … | purge v:h … | delayed h:v:a … | op <operation>
+      bal d:a … | frozen v … | iter v … | req v … | purge v:h … | delayed h:v:a … | op <operation>
 
   operations: `begin` · `stake v d a` · `unstake v d a` · `withdraw v d a` (kind `tx` = DeliverTx,
-  kind `check` = CheckTx on the mempool state; both run `Validate` first) · `end g1,g2,…`
+  kind `check` = CheckTx on the mempool state; both run `Validate` first) · `end <guilty g1,g2,…|-> <deletable d1,…|->`
   and the answer is the result class plus the post-state records the model predicts
 
     code <c> | tot … | vd … | eff … | bnd … | mat … | val … | delayed … [| bal …]
@@ -94,6 +94,7 @@ def parseLine (line : String) : Option Parsed := do
   let prev ← parseVals (sec "prev")
   let bal ← parseAmt (sec "bal")
   let frozen ← (sec "frozen").mapM String.toInt?
+  let iterVals ← (sec "iter").mapM String.toNat?
   let req ← (sec "req").mapM String.toInt?
   let purge ← parseAmt (sec "purge")
   let delayed ← parseTriples (sec "delayed")
@@ -111,6 +112,7 @@ def parseLine (line : String) : Option Parsed := do
     prev := fun v => lookupD (prev.map fun p => (p.1, some p.2)) none v
     bal := fun d => lookupD bal 0 d
     frozen := fun v => frozen.contains (v : Int)
+    iterVals := iterVals
     req := fun v => req.contains (v : Int)
     purge := fun v => lookupD purge 0 v
     delayed := fun k v => match delayed.find? (fun t => t.1 == k && t.2.1 == (v : Int)) with
@@ -201,17 +203,15 @@ def stepLine (line : String) : String :=
           | some (s, c) => s!"code {showCode c} | " ++ showState p s true
           | none => "bad-op"
         | _, _, _ => "bad-op"
-      | "end", "end" :: rest =>
-        let g : Option (List Nat) := match rest with
-          | [] => some []
-          | [l] => (l.splitOn ",").mapM natTok
-          | _ => none
-        match g with
-        | none => "bad-op"
-        | some g =>
+      | "end", ["end", gl, dl] =>
+        let lst (l : String) : Option (List Nat) :=
+          if l == "-" then some [] else (l.splitOn ",").mapM natTok
+        match lst gl, lst dl with
+        | some g, some dele =>
           -- purge heights are decided by the election (not predicted, not printed)
-          let s := endBlock cfg p.st g []
+          let s := endBlock cfg p.st g [] dele
           "code ok | " ++ showState p s false
+        | _, _ => "bad-op"
       | _, _ => "bad-op"
 
 partial def loop (hin hout : IO.FS.Stream) : IO Unit := do
